@@ -12,7 +12,8 @@ CONSTANTS GenDepth,      \* number of calls in a script
           MaxCommits,    \* bound on commits per script
           CloseHows,     \* subset of {"commit", "rollback", "exit"}: how a read transaction is ended
           EndHows,       \* subset of {"commit", "exit"} / {"rollback", "raise"} used for write transactions
-          IdOffsets      \* reader(id=newest id + d) for d in IdOffsets (ids near the retained window)
+          IdOffsets,     \* reader(id=newest id + d) for d in IdOffsets (ids near the retained window)
+          Forms          \* subset of {"rdata", "rdataset", "rrset"}: argument form of the writer's calls
 
 VARIABLES hist,
           fin            \* the script is complete (simulation mode prints it exactly once)
@@ -22,9 +23,16 @@ C(s, it) == [serial |-> s, items |-> it]
 A1 == <<"a", 1>>
 A2 == <<"a", 2>>
 B1 == <<"b", 1>>
+G1 == <<"g.d", 1>>      \* an address record BELOW the name d
+D0 == <<"d", 0>>        \* an NS rdataset (a delegation, in a B-tree zone) AT the name d
+(* a delegation appears above / disappears from above a name that exists already and is
+   not written by that transaction (the B-tree zone re-flags it as glue / not glue) *)
+GenContentsDeleg == {C(1, {G1}), C(2, {G1, D0}), C(3, {G1}), C(3, {G1, D0, A1})}
+GenInitDeleg == {C(1, {G1}), C(2, {G1, D0})}
 GenContentsTiny  == {C(1, {A1}), C(2, {A1})}
 GenContentsSmall == {C(1, {}), C(1, {A1}), C(2, {A1})}
-GenContents      == {C(1, {}), C(1, {A1}), C(2, {A1}), C(2, {A1, A2, B1}), C(3, {B1}), C(3, {A2})}
+GenContentsMid   == {C(1, {}), C(1, {A1}), C(2, {A1}), C(2, {A1, A2, B1}), C(3, {B1}), C(3, {A2})}
+GenContents      == GenContentsMid \cup {C(2, {A1, G1}), C(3, {A1, G1, D0})}
 GenNoOffsets == {}
 GenIdOffsets == {-2, -1, 0, 1}
 GenInitOne == {C(1, {A1})}
@@ -63,7 +71,7 @@ GStep ==
     \/ /\ "begin" \in Ops
        /\ \E b \in BOOLEAN : BeginWrite(b) /\ H([op |-> "begin", repl |-> b])
     \/ /\ "stage" \in Ops
-       /\ \E c \in Contents : Stage(c) /\ H([op |-> "stage", content |-> c])
+       /\ \E c \in Contents, f \in Forms : Stage(c) /\ H([op |-> "stage", content |-> c, form |-> f])
     \/ /\ "commit" \in Ops /\ Len(allIds) <= MaxCommits
        /\ \E how \in EndHows \cap {"commit", "exit"} :
             /\ CommitChanged(Last(allIds) + 1) \/ CommitUnchanged
@@ -79,6 +87,8 @@ GStep ==
     \/ /\ "mutate" \in Ops
        /\ \E r \in DOMAIN readers : MutateThroughReader(r) /\ H([op |-> "mutate", rid |-> r])
     \/ /\ "zmutate" \in Ops /\ MutateZone /\ H([op |-> "zmutate"])
+    \/ /\ "scribble" \in Ops
+       /\ \E how \in {"add", "ttl", "clear"} : CallerReusesObjects /\ H([op |-> "scribble", how |-> how])
 
 (* a finished script takes one `fin` step and then stutters *)
 GNext == \/ Len(hist) <= GenDepth /\ GStep /\ fin' = FALSE
